@@ -55,7 +55,7 @@ impl Prop for C13 {
         }
     }
     fn nontrivial_rule(&self) -> &'static str {
-        "70% service scenarios (engine A): AIMD or Vegas limiter with small limits (or initial/max limit usize::MAX), two services built from one layer, handles asked again for readiness after a wait, 2-10 callers on clones polling readiness by hand, inner ok/error/panic/never, slow responses, cancels while waiting/running, a late probe; in_flight() compared with the true count after every step, every poll_ready answer compared with capacity. Non-trivial: a caller was cancelled or panicked. 30% thread scenarios (engine B, shuttle): 2-4 threads of record_success(latency)/record_failure on AimdController/Aimd/Vegas, limit() checked after every atomic step. Non-trivial: operations overlapped. Distinct = event-log digest / hash(workload, thread-id sequence)."
+        "70% service scenarios (engine A): AIMD or Vegas limiter with small limits (or initial/max limit usize::MAX), two services built from one layer, handles asked again for readiness after a wait, a wrapped service with a capacity in one run of five, 2-10 callers on clones polling readiness by hand, inner ok/error/panic/never, slow responses, cancels while waiting/running, a late probe; in_flight() compared with the true count after every step, every poll_ready answer compared with capacity. Non-trivial: a caller was cancelled or panicked. 35% thread scenarios (engine B, shuttle): 2-4 threads of record_success(latency)/record_failure on AimdController/Aimd/Vegas, limit() checked after every atomic step; or 2-3 threads driving clones of the whole AdaptiveService (in-flight counter exact at the end, no spurious Pending). Non-trivial: operations overlapped. Distinct = event-log digest / hash(workload, thread-id sequence)."
     }
     fn real_components(&self) -> Vec<&'static str> {
         vec!["tower-resilience-adaptive (AdaptiveService, AdaptiveLimiterLayer, Aimd, Vegas, Algorithm) with the latency clock on tokio's paused clock (hook)", "tower-resilience-core AimdController (atomics behind the yield hook)"]
